@@ -170,8 +170,7 @@ fn on_fields(fields: &Fields, has_self: bool, encoding: Encoding) -> syn::Result
     let steps = match encoding {
         Encoding::Map => {
             let mut steps = Vec::new();
-            let len = fields.fields().len();
-            steps.push(quote!(#len.cbor_len(__ctx777)));
+            let mut tests = Vec::new();
             for field in fields.fields() {
                 if field.attrs.skip() {
                     continue
@@ -183,6 +182,7 @@ fn on_fields(fields: &Fields, has_self: bool, encoding: Encoding) -> syn::Result
                 let tag      = on_tag(&field.attrs);
                 if has_self {
                     if field.is_name {
+                        tests.push(quote!(if !#is_nil(&self.#ident) { __num777 += 1 }));
                         steps.push(quote! {
                             + if #is_nil(&self.#ident) {
                                 0
@@ -192,6 +192,7 @@ fn on_fields(fields: &Fields, has_self: bool, encoding: Encoding) -> syn::Result
                         })
                     } else {
                         let i = syn::Index::from(field.pos);
+                        tests.push(quote!(if !#is_nil(&self.#i) { __num777 += 1 }));
                         steps.push(quote! {
                             + if #is_nil(&self.#i) {
                                 0
@@ -201,6 +202,7 @@ fn on_fields(fields: &Fields, has_self: bool, encoding: Encoding) -> syn::Result
                         })
                     }
                 } else {
+                    tests.push(quote!(if !#is_nil(&#ident) { __num777 += 1 }));
                     steps.push(quote! {
                         + if #is_nil(&#ident) {
                             0
@@ -210,6 +212,15 @@ fn on_fields(fields: &Fields, has_self: bool, encoding: Encoding) -> syn::Result
                     })
                 }
             }
+            // The map header announces the number of entries actually written,
+            // i.e. the fields which are not nil.
+            steps.insert(0, quote! {
+                ({
+                    let mut __num777 = 0usize;
+                    #(#tests)*
+                    __num777.cbor_len(__ctx777)
+                })
+            });
             steps
         }
         Encoding::Array => {
